@@ -182,6 +182,13 @@ func Finish(verifDir string, res *Result, tier string, seed int64, started time.
 	perKind := map[string]int{}
 	written := 0
 	replayDir := filepath.Join(verifDir, "replays", prop)
+	// replays of an earlier run of the same tier and seed are stale now (committed replays of recorded
+	// findings carry other names)
+	if old, _ := filepath.Glob(filepath.Join(replayDir, fmt.Sprintf("%s-seed%d-*.json", tier, seed))); len(old) > 0 {
+		for _, o := range old {
+			_ = os.Remove(o)
+		}
+	}
 	for i, v := range fresh {
 		path := "(not written: replay cap reached)"
 		if perKind[v.Kind] < 3 && written < 12 {
